@@ -409,6 +409,23 @@ pub mod fr {
     type F10 = FBig<mode::HalfAway, 10>;
     type F16 = FBig<mode::Zero, 16>;
 
+    /// `!unnormalized` marker: every FBig the harness gets back must have a significand that is not
+    /// divisible by the base (zero: exponent 0; infinities: exponent +-1)
+    fn norm_mark<R: dashu_float::round::Round, const B: Word>(x: &FBig<R, B>) -> &'static str {
+        let r = x.repr();
+        let s = r.significand();
+        let bad = if s.is_zero() {
+            !(r.exponent() == 0 || r.exponent() == 1 || r.exponent() == -1)
+        } else {
+            (s % IBig::from(B)).is_zero()
+        };
+        if bad {
+            " !unnormalized"
+        } else {
+            ""
+        }
+    }
+
     fn p_isize(s: &str) -> Result<isize, String> {
         let v = p_dec(s)?;
         isize::try_from(v).map_err(|_| format!("bad-arg isize {}", s))
@@ -442,7 +459,7 @@ pub mod fr {
             let b = mkf!($TB, arg($args, 4)?, p_isize(arg($args, 5)?)?, p_usize(arg($args, 6)?)?);
             let c = a.partial_cmp(&b).map(f_ord).unwrap_or("none");
             let d = b.partial_cmp(&a).map(f_ord).unwrap_or("none");
-            Ok(format!("{} {} {}", a == b, c, d))
+            Ok(format!("{} {} {}{}{}", a == b, c, d, norm_mark(&a), norm_mark(&b)))
         }};
     }
 
@@ -475,10 +492,12 @@ pub mod fr {
                     }
                     let _ = exact;
                     Ok(format!(
-                        "{} {} {}",
+                        "{} {} {}{}{}",
                         c == b,
                         c.partial_cmp(&b).map(f_ord).unwrap_or("none"),
-                        b.partial_cmp(&c).map(f_ord).unwrap_or("none")
+                        b.partial_cmp(&c).map(f_ord).unwrap_or("none"),
+                        norm_mark(&c),
+                        norm_mark(&b)
                     ))
                 }
                 // f.excess <base> <op> sa ea pa sb eb pb : digits(result) - precision(result) of one float
@@ -508,7 +527,11 @@ pub mod fr {
                             let d = if rp.is_infinite() { 0 } else { rp.digits() };
                             if op == "f.fits" {
                                 // the invariant the comparison relies on: at most one spare digit
-                                return Ok(format!("{}", r.precision() == 0 || d <= r.precision() + 1));
+                                return Ok(format!(
+                                    "{}{}",
+                                    r.precision() == 0 || d <= r.precision() + 1,
+                                    norm_mark(&r)
+                                ));
                             }
                             Ok(format!(
                                 "{} {} {} {}",
@@ -524,6 +547,79 @@ pub mod fr {
                         "10" => go!(F10),
                         "16" => go!(F16),
                         b => Err(format!("bad-arg base {}", b)),
+                    }
+                }
+                // f.viabase <src> <dst> s e : the base-`src` float s*src^e (src = dst^k) converted to base
+                // `dst` — exactly, through the power-base shortcut of convert_base — by with_base_and_precision
+                // (ample precision), by with_base when that is exact, and by to_binary for dst = 2; each result
+                // must be normalised and ==, cmp Equal (both orders) to the same number built directly with
+                // from_parts in the target base -> `<signif> <exp> <==> <cmp> <cmp reversed>`
+                "f.viabase" => {
+                    use dashu_base::Approximation;
+                    macro_rules! via {
+                        ($S:expr, $D:expr, $k:expr, $bin:expr) => {{
+                            let sg = p_ibig(arg(args, 2)?)?;
+                            let e = p_isize(arg(args, 3)?)?;
+                            let src = FBig::<mode::Zero, $S>::from_parts(sg.clone(), e);
+                            let direct = FBig::<mode::Zero, $D>::from_parts(sg.clone(), e * $k);
+                            let big_prec = src.precision() * $k + 8;
+                            let mut got: Vec<(&str, FBig<mode::Zero, $D>)> = vec![];
+                            match src.clone().with_base_and_precision::<$D>(big_prec) {
+                                Approximation::Exact(v) => got.push(("wbp", v)),
+                                Approximation::Inexact(_, _) => return Ok("BAD with_base_and_precision-inexact".into()),
+                            }
+                            if let Approximation::Exact(v) = src.clone().with_base::<$D>() {
+                                got.push(("wb", v));
+                            }
+                            let head = {
+                                let r = got[0].1.repr();
+                                format!("{} {}", f_ibig(r.significand()), f_dec(r.exponent()))
+                            };
+                            let mut out = format!(
+                                "{} {} {} {}",
+                                head,
+                                got[0].1 == direct,
+                                got[0].1.partial_cmp(&direct).map(f_ord).unwrap_or("none"),
+                                direct.partial_cmp(&got[0].1).map(f_ord).unwrap_or("none")
+                            );
+                            for (name, v) in &got {
+                                out.push_str(norm_mark(v));
+                                if !(v == &direct) || !(&direct == v) || v.partial_cmp(&direct) != Some(Ordering::Equal) {
+                                    out.push_str(&format!(" BAD {}-differs-from-direct", name));
+                                }
+                            }
+                            out.push_str(norm_mark(&direct));
+                            let _ = $bin;
+                            Ok(out)
+                        }};
+                    }
+                    match (arg(args, 0)?, arg(args, 1)?) {
+                        ("16", "2") => {
+                            // also the dedicated to_binary()
+                            let sg = p_ibig(arg(args, 2)?)?;
+                            let e = p_isize(arg(args, 3)?)?;
+                            let b = FBig::<mode::Zero, 16>::from_parts(sg.clone(), e).to_binary();
+                            let direct = FBig::<mode::Zero, 2>::from_parts(sg, e * 4);
+                            let extra = match b {
+                                Approximation::Exact(v) => {
+                                    if v != direct || !norm_mark(&v).is_empty() {
+                                        " BAD to_binary-differs-from-direct"
+                                    } else {
+                                        ""
+                                    }
+                                }
+                                _ => "",
+                            };
+                            let r: Res = via!(16, 2, 4, true);
+                            r.map(|o| o + extra)
+                        }
+                        ("8", "2") => via!(8, 2, 3, false),
+                        ("4", "2") => via!(4, 2, 2, false),
+                        ("16", "4") => via!(16, 4, 2, false),
+                        ("9", "3") => via!(9, 3, 2, false),
+                        ("27", "3") => via!(27, 3, 3, false),
+                        ("100", "10") => via!(100, 10, 2, false),
+                        (a, b) => Err(format!("bad-arg bases {} {}", a, b)),
                     }
                 }
                 // f.routes s e : the decimal float s*10^e built by several routes; every result must have the
@@ -563,6 +659,10 @@ pub mod fr {
                     let mut bad: Option<String> = None;
                     for (r, v) in &vals {
                         let rp = v.repr();
+                        if !norm_mark(v).is_empty() {
+                            bad = Some(format!("route{}:unnormalized", r));
+                            break;
+                        }
                         if rp.significand() != r0.significand() || rp.exponent() != r0.exponent() {
                             bad = Some(format!("route{}:repr={}e{}", r, f_ibig(rp.significand()), rp.exponent()));
                             break;
